@@ -86,6 +86,22 @@ MCODES = {1: "malformed record / result is not a consistent sparse matrix", 300:
           304: "determinant differs from the definition"}
 
 
+def ckeyfn(rc, err, line=None):
+    return "crash"
+
+
+def climat_key(line, code):
+    t = line.split()
+    p = 5
+    p += 1 + int(t[p])
+    p += 1 + int(t[p])
+    txt = "".join(chr(int(x)) for x in t[p + 1:])
+    head = txt.split()[:3]
+    if t[0] == "1" and len(head) == 3 and head[2].isdigit() and int(head[2]) > 100000:
+        return "sparse-reader-huge-nonzero-count"
+    return line
+
+
 def mkeyfn(line, code):
     t = line.split()
     if code == 304 and t[0] == "6":
@@ -179,6 +195,15 @@ def run(ctx):
                 for _ in range(2 if q else 6):
                     b2 = tob(mutate(rng, text, ty))
                     rl.append("%d %d %d %s" % (fmt, ty, len(b2), " ".join(map(str, b2))))
+    # matrices with more than 256 / 512 nonzeros (the sparse readers grow their buffer of nonzeros in steps)
+    for k in range(6 if q else 40):
+        m, n = 17 + rng.below(12), 17 + rng.below(12)
+        M = [[rng.choice((-1, 1, 1, 2, 0)) for _ in range(n)] for _ in range(m)]
+        for fmt in (0, 1):
+            text = dense_text(M, m, n) if fmt == 0 else sparse_text(M, m, n, rng)
+            for ty in (0, 1):
+                b = tob(text)
+                rl.append("%d %d %d %s" % (fmt, ty, len(b), " ".join(map(str, b))))
     # int-typed matrices with large values
     for _ in range(200 if q else 3000):
         m, n = 1 + rng.below(3), 1 + rng.below(3)
@@ -190,6 +215,27 @@ def run(ctx):
             for ty in (0, 1):
                 b = tob(text)
                 rl.append("%d %d %d %s" % (fmt, ty, len(b), " ".join(map(str, b))))
+    import clilib
+    cl = []
+    crng = ctx.rng.fork("climat")
+    cmats = [x for x in mats if x[1] * x[2] >= 1]
+    for _ in range(1500 if q else 40000):
+        M, m, n = crng.choice(cmats)
+        if crng.below(6) == 0:
+            m, n = 1 + crng.below(4), 1 + crng.below(4)
+            M = rand_matrix(crng, m, n, (-2147483648, -70000, -129, 0, 0, 128, 300, 65536, 2147483647), 6, 10)
+        infmt = crng.below(2)
+        text = dense_text(M, m, n) if infmt == 0 else sparse_text(M, m, n, crng)
+        if crng.below(8) == 0:
+            text = mutate(crng, text, 1)
+        hasS = 1 if crng.below(3) == 0 else 0
+        rs = crng.shuffle(list(range(m)))[:crng.below(m + 1)] if hasS else []
+        cs = crng.shuffle(list(range(n)))[:crng.below(n + 1)] if hasS else []
+        b = tob(text)
+        cl.append("%d %d %d %d %d %s %s %d %s" % (infmt, crng.below(2), crng.below(2), crng.below(3), hasS, idx(rs), idx(cs),
+                                                 len(b), " ".join(map(str, b))))
+    clilib.stream(ctx, "climat", cl, "cmr-matrix: output bytes vs. slice / transpose / support of the parsed input",
+                  lambda c: gen.CLIMAT_CODES.get(c, str(c)), keyfn=climat_key)
     ctx.stream("edgelist", gen.edgelist_lines(ctx.rng.fork("edgelist"), 3000 if q else 60000),
                "edge-list reader vs. the documented grammar (Coq parser)", describe=lambda c: gen.EDGELIST_CODES.get(c, str(c)))
     ctx.stream("matutil", matutil_lines(ctx, mats), "matrix and submatrix utilities vs. their dense models",
